@@ -179,8 +179,16 @@ func (c *Ctx) Absorb(o *Ctx) {
 // Broken records an infrastructure problem (exit 2).
 func (c *Ctx) Broken(format string, a ...any) {
 	c.mu.Lock()
-	c.broken = append(c.broken, fmt.Sprintf(format, a...))
-	c.mu.Unlock()
+	defer c.mu.Unlock()
+	m := fmt.Sprintf(format, a...)
+	for _, b := range c.broken {
+		if b == m {
+			return
+		}
+	}
+	if len(c.broken) < 40 {
+		c.broken = append(c.broken, m)
+	}
 }
 
 func (c *Ctx) Violations() int { c.mu.Lock(); defer c.mu.Unlock(); return len(c.viol) }
